@@ -1148,3 +1148,10 @@ def r10b(cx):
         cx.violation(APPLY_ERREXIT[0], 'errexit-status-lost-in-trap', 'apply_errexit always yields Exit(None), i.e. "exit with the current $?", and '
                      'run_trap puts the $? of before the trap back for that divert: `set -e; trap "(exit 7); echo more" USR1; kill -USR1 $$` aborts '
                      'the script as it must but with exit status 0 (the status before the trap) instead of 7', loc=bloc(eb))
+
+
+from rules.C02 import r11 as _c02_assignment_status
+from engine import Rule
+RS.rules.append(Rule('C10.R11', 'K-GUARD', 'errexit sees the failure of a command substitution in ANY assignment of a command without a command '
+                     'name: the status handed to apply_errexit is folded over the assignments (C02.R11)', _c02_assignment_status))
+RS.explanation += ' The status of an assignment-only command, which errexit inspects, is folded over all its assignments (R11 = C02.R11).'
